@@ -13,6 +13,16 @@
 #include <unistd.h>
 #include "hex.c"
 
+/* If a refactoring of hex.c removes one of the static helpers the harness is rebuilt with -DNO_HEXCHAR and/or
+ * -DNO_NIBBLE: the corresponding table row is then produced by the reference below (and the plugin records the
+ * helper tie as broken), so that the functional ops - which do not depend on the helpers - still decide. */
+#ifdef NO_HEXCHAR
+static char hexchar(char h) { return h < 10 ? '0' + h : 'a' - 10 + h; }
+#endif
+#ifdef NO_NIBBLE
+static int nibble(char h) { return h <= '9' ? h - '0' : (h & ~('a' - 'A')) - 'A' + 10; }
+#endif
+
 static unsigned char *decode(const char *w, size_t *n)
 {
 	size_t len = strcmp(w, "-") ? strlen(w) / 2 : 0;
